@@ -2645,3 +2645,36 @@ Proof.
               (1 - lam) * cu_cost (constraint_update flgH ne nf con rows b)) by (apply Rmult_le_compat_l; lra).
   lra.
 Qed.
+
+
+(* ------------------------------------------------------------------ per-row projections of the dual solvers *)
+Lemma mju_clip_bounds (x lo hi : R) : lo <= hi -> lo <= mju_clip x lo hi <= hi.
+Proof.
+  intros H. unfold mju_clip. num_R. unfold Rltb.
+  destruct (Rlt_dec x lo); [lra|]. destruct (Rlt_dec hi x); lra.
+Qed.
+
+Lemma noslip_fric_bound (force res arinv fl : R) : 0 <= fl -> Rabs (noslip_fric_update force res arinv fl) <= fl.
+Proof.
+  intros H. unfold noslip_fric_update. cbv zeta. num_R. unfold Rltb.
+  destruct (Rlt_dec (force - res * arinv) (- fl)); [rewrite Rabs_Ropp, Rabs_pos_eq; lra|].
+  destruct (Rlt_dec fl (force - res * arinv)); [rewrite Rabs_pos_eq; lra|].
+  apply Rabs_le. lra.
+Qed.
+
+Lemma noslip_fric_is_clip (force res arinv fl : R) : 0 <= fl ->
+  noslip_fric_update force res arinv fl = mju_clip (force - res * arinv) (- fl) fl.
+Proof. intros H. unfold noslip_fric_update, mju_clip. cbv zeta. num_R. reflexivity. Qed.
+
+Lemma noslip_pyr_pair_adm (mid y : R) : 0 <= mid ->
+  0 <= fst (noslip_pyr_pair mid y) /\ 0 <= snd (noslip_pyr_pair mid y) /\
+  fst (noslip_pyr_pair mid y) + snd (noslip_pyr_pair mid y) = 2 * mid.
+Proof.
+  intros H. unfold noslip_pyr_pair, ntwo. num_R. unfold Rltb.
+  destruct (Rlt_dec y (- mid)); [simpl; lra|]. destruct (Rlt_dec mid y); simpl; lra.
+Qed.
+
+Lemma noslip_fric_spec (force res arinv fl : R) : 0 <= fl ->
+  Rabs (noslip_fric_update force res arinv fl) <= fl /\
+  noslip_fric_update force res arinv fl = mju_clip (force - res * arinv) (- fl) fl.
+Proof. intros. split; [apply noslip_fric_bound | apply noslip_fric_is_clip]; assumption. Qed.
